@@ -564,7 +564,45 @@ class PE:
             return (recv == args[0]) == (m == "eq")
         if m in ("is_some", "is_none", "is_ok", "is_err") and isinstance(recv, Enum):
             return recv.path == {"is_some": "Some", "is_none": "None", "is_ok": "Ok", "is_err": "Err"}[m]
+        # Option / Result combinators on a known variant
+        if isinstance(recv, Enum) and recv.path in ("Some", "None", "Ok", "Err"):
+            payload = recv.args[0] if recv.args else UNK
+            if m == "ok" and not args:
+                return Enum("Some", [payload]) if recv.path == "Ok" else Enum("None")
+            if m == "err" and not args:
+                return Enum("Some", [payload]) if recv.path == "Err" else Enum("None")
+            if m in ("and_then", "map", "is_some_and", "is_ok_and") and len(n["a"]) == 1:
+                if recv.path in ("None", "Err"):
+                    return False if m.startswith("is_") else recv
+                v = self._apply_closure(n["a"][0], [payload])
+                if m == "map":
+                    return Enum(recv.path, [v])
+                return v
+            if m in ("unwrap_or", "unwrap_or_default", "unwrap_or_else"):
+                if recv.path in ("Some", "Ok"):
+                    return payload
+                return args[0] if (m == "unwrap_or" and args) else UNK
+            if m == "ok_or" and args:
+                return Enum("Ok", [payload]) if recv.path == "Some" else Enum("Err", [args[0]])
         return UNK
+
+    def _apply_closure(self, e, argv):
+        """Value of the closure expression e applied to argv (captured locals come from the current environment)."""
+        cl = hirq.peel(e, set())
+        if cl.get("k") != "closure" or len(cl.get("params", [])) != len(argv):
+            return UNK
+        saved = dict(self.env)
+        try:
+            for pat, v in zip(cl["params"], argv):
+                binds = {}
+                self.match_pat(pat, v, binds)
+                self.env.update(binds)
+            try:
+                return self.ev(cl["body"])
+            except Ret as r:
+                return r.value
+        finally:
+            self.env = saved
 
     def _inline(self, p, argv):
         callee = self.F.fns.get(p)
